@@ -129,7 +129,11 @@ impl Ctx {
         };
         let moved = if r > 0 { r } else { 0 };
         self.reqs.push(json!({"count": count, "nb": nb, "ranges": ranges, "err": err, "moved": moved}));
-        set_errno(err);
+        // like the kernel: errno is written by a failing call only; a successful call leaves whatever
+        // an earlier failure put there
+        if r == -1 {
+            set_errno(err);
+        }
         r
     }
 
